@@ -803,7 +803,7 @@ def c_inline_new_scalars(f, recorded):
     return done
 
 
-def c_integer_abs_on_double(f):
+def c_integer_abs_on_double(f, want='abs'):
     """calls of the integer abs() whose argument has floating type (C converts the argument to int first, so |x| < 1 becomes 0):
     list of (line, text)"""
     types = {pn: _base_type(pt) for pt, pn in f.params}
@@ -840,9 +840,20 @@ def c_integer_abs_on_double(f):
             e = getattr(h, a)
             if isinstance(e, ast.AST):
                 for n in ast.walk(e):
-                    if isinstance(n, ast.Call) and isinstance(n.func, ast.Name) and n.func.id in ('abs', 'labs') and len(n.args) == 1 and ty(n.args[0]) == 'double':
+                    if want == 'abs' and isinstance(n, ast.Call) and isinstance(n.func, ast.Name) and n.func.id in ('abs', 'labs') and len(n.args) == 1 and ty(n.args[0]) == 'double':
+                        out.append((st.line, unparse(n)))
+                    if want == 'div' and isinstance(n, ast.BinOp) and isinstance(n.op, ast.Div) and ty(n.left) == 'int' and ty(n.right) == 'int':
+                        # exact quotients of literals (4/2) lose nothing
+                        if isinstance(n.left, ast.Constant) and isinstance(n.right, ast.Constant) and n.right.value and n.left.value % n.right.value == 0:
+                            continue
                         out.append((st.line, unparse(n)))
     return out
+
+
+def c_integer_division(f):
+    """quotients whose two operands both have integer type: C truncates them (1/2 == 0) before any conversion to double, whereas the
+    algebra of the formula (and the Python reference) means the real quotient: list of (line, text)"""
+    return c_integer_abs_on_double(f, want='div')
 
 
 def _c_table():
